@@ -296,6 +296,9 @@ def handle (op : String) (fs : List (String × String)) : String :=
     else if op == "shape.len" then
       -- D: every output is within the length bound of C07_len_bound (the Go side evaluates the bound)
       "|".intercalate (outs.map (showOutcome fun _ => "within"))
+    else if op == "shape.input" then
+      -- D: the engine does not write into the rune array of the caller's input (Go side snapshots it)
+      "|".intercalate (outs.map (showOutcome fun _ => "kept"))
     else if op == "shape.hist" then
       -- D: every call on the reused context gives what a fresh context gives
       "same"
